@@ -98,6 +98,18 @@ class SameError(KeyError):
         return 11
 
 
+#: what a failing activity raises: mostly its own kind of error, now and then one of the
+#: library's public exception types - as a failure of an activity they are failures like any other
+FAILURE_TYPES = [SameError, SameError, SameError, usim.StreamClosed, usim.ResourcesUnavailable,
+                 usim.IntervalExceeded]
+
+
+def failure(name, number):
+    exc = FAILURE_TYPES[number % len(FAILURE_TYPES)](name)
+    exc.tag = name
+    return exc
+
+
 class Checker:
     def __init__(self, arena, spec):
         self.arena = arena
@@ -140,7 +152,7 @@ def build_for(case):
                         return await victims[number]
                     if act['fail']:
                         arena.log(name, 'raise')
-                        raise SameError(name)
+                        raise failure(name, number)
                     arena.log(name, 'done')
                     return act['value']
                 except GeneratorExit:
@@ -194,7 +206,7 @@ def build_for(case):
                     try:
                         checker.result = ('ok', await usim.collect(*acts), time.now)
                     except Concurrent as exc:
-                        checker.result = ('concurrent', [str(child.args[0]) for child
+                        checker.result = ('concurrent', [getattr(child, 'tag', None) or str(child.args[0]) for child
                                                          in exc.children], time.now)
                     except usim.TaskCancelled as exc:
                         checker.result = ('taskcancelled', [exc.subject is task for task
@@ -226,7 +238,7 @@ def build_for(case):
                         checker.result = ('ValueError', items, time.now)
                     except Concurrent as exc:
                         checker.result = ('first-concurrent', items, time.now,
-                                          [str(child.args[0]) for child in exc.children])
+                                          [getattr(child, 'tag', None) or str(child.args[0]) for child in exc.children])
                     finally:
                         box.clear()
             finally:
